@@ -79,13 +79,28 @@ def run_property(pid, tier, seed):
                 all_findings.append((cfg, f))
             per_cfg.append((cfg, ctx))
             notes.extend(ctx.notes)
-    # thorough extras (witnesses, mutant self-test) are property-specific hooks
+    # post hooks: compile-fail witnesses (C20) in both tiers; seeded-mutant self-test in the thorough tier
     extra = {}
-    if fatal is None and tier == "thorough" and hasattr(mod, "thorough"):
+    if fatal is None and hasattr(mod, "post"):
         try:
-            extra = mod.thorough(obligations, all_findings) or {}
+            extra.update(mod.post(tier, all_findings) or {})
         except Exception:
-            all_findings.append(("thorough", _mk_finding(pid, "thorough", "internal", "-", "thorough hook error: " + traceback.format_exc()[-1200:])))
+            all_findings.append(("post", _mk_finding(pid, "post", "internal", "-", "post hook error: " + traceback.format_exc()[-1200:])))
+    if fatal is None and tier == "thorough":
+        try:
+            from . import mutants as M
+            res = M.run([pid], verbose=False)
+            extra["mutant_selftest"] = {
+                "total": len(res), "caught": sum(r["status"] in ("caught", "caught-other") for r in res),
+                "missed": [r["mutant"] for r in res if r["status"] == "MISSED"],
+                "skipped": [r["mutant"] + ": " + r.get("why", "")[:80] for r in res if r["status"] == "skipped"],
+            }
+            for r in res:
+                if r["status"] == "MISSED":
+                    all_findings.append(("mutants", _mk_finding(pid, "selftest/" + r["mutant"], "SELFTEST", "-",
+                                                                 "checker self-test: seeded mutant `%s` is no longer detected" % r["mutant"])))
+        except Exception:
+            all_findings.append(("mutants", _mk_finding(pid, "selftest", "internal", "-", "mutant self-test error: " + traceback.format_exc()[-800:])))
 
     known, fixed = load_known()
     known_keys = {k["key"]: k for k in known if k.get("property") == pid}
